@@ -382,6 +382,19 @@ func checkC04(c *Ctx) {
 			}
 		}
 	})
+	nfs := numberFormats()
+	c.Section("C04/number-formats", map[string]interface{}{"formats": len(nfs), "arg_lists": len(ial)}, len(nfs), func(i int, w *Worker) {
+		if excludedProgram(nfs[i]) {
+			return
+		}
+		for ai := range ial {
+			w.Eval()
+			if dt := c04Compare(nfs[i], ial[ai], w.SeenS); dt != "" {
+				w.Fail("indexed", map[string]interface{}{"F": []byte(nfs[i]), "A": 100 + ai, "quoted": q(nfs[i])}, dt)
+			}
+		}
+	})
+	replayers["C04/number-formats"] = replayers["C04/indexed"]
 	// systematic size family: operand counts, directive counts and container sizes 0..70
 	c.Section("C04/sizes", map[string]interface{}{"sizes": "every n in 0..70", "shapes": len(sizeShapes)}, 71*len(sizeShapes), func(i int, w *Worker) {
 		n, sh := i/len(sizeShapes), i%len(sizeShapes)
